@@ -172,6 +172,26 @@ def run_config(chk, config):
             s = next(iter(d.lin.t))
             if s.startswith("validation_options.") and s.endswith("#v"):
                 switches.append((frame.key, bb, s[len("validation_options."):-2], val, tb))
+        elif isinstance(d, VBool):
+            # `options.x == ValidateX::Yes` (derived PartialEq) tested as a boolean: the edge on which the
+            # option is decided Yes / No plays the role of the discriminant switch's edge
+            syms = set()
+
+            def walk(f):
+                if f[0] == "atom":
+                    syms.update(f[1][0].t)
+                elif f[0] in ("not", "and", "or"):
+                    for g in f[1:]:
+                        walk(g)
+                else:
+                    syms.add(None)
+            walk(d.f)
+            if len(syms) == 1:
+                s = next(iter(syms))
+                if s and s.startswith("validation_options.") and s.endswith("#v"):
+                    o = opt_state(eng, st, s[len("validation_options."):-2])
+                    if o is not None:
+                        switches.append((frame.key, bb, s[len("validation_options."):-2], 0 if o == "Yes" else None, tb))
     eng.hooks["switch"] = on_switch
     rets = eng.analyse(a.msg_try_read_validate["key"], name="Message::try_read_validate[%s]" % config)
     record_engine(chk, eng, "Message::try_read_validate [%s]: %d paths, all option sets symbolic" % (config, len(rets)))
